@@ -43,6 +43,7 @@ def pneg(p):
 
 
 IDEMPOTENT_TAGS = ("B", "cmp", "boolatom")
+_IDEM: set = set()  # canonical atoms declared Boolean by the active Normalizer (annotation-derived)
 
 
 def _mmul(m1, m2):
@@ -55,7 +56,7 @@ def _mmul(m1, m2):
     for a, e in d.items():
         if e == 0:
             continue
-        if isinstance(a, tuple) and a and a[0] in IDEMPOTENT_TAGS and e > 1:
+        if e > 1 and ((isinstance(a, tuple) and a and a[0] in IDEMPOTENT_TAGS) or a in _IDEM):
             e = 1  # Boolean-valued atoms are idempotent under product
         out.append((a, e))
     return tuple(sorted(out, key=_key))
@@ -169,7 +170,11 @@ INT_DTYPES = {("g", "int"), ("g", "jax.numpy.int32"), ("g", "jax.numpy.int64"), 
 
 class Normalizer:
     def __init__(self, builder: Builder | None = None, keep_stop_gradient: bool = False,
-                 erase_error_if: bool = True):
+                 erase_error_if: bool = True, ite_poly: bool = False, bool_terms=()):
+        self.ite_poly = ite_poly  # Ite(c,a,b) = c*a + (1-c)*b; sound for finite a, b only
+        self.bool_terms = set(bool_terms)  # canonical terms known to be Boolean-valued (from annotations)
+        _IDEM.clear()
+        _IDEM.update(self.bool_terms)
         self.b = builder
         self.keep_sg = keep_stop_gradient
         self.erase_error_if = erase_error_if
@@ -240,6 +245,14 @@ class Normalizer:
         if k == "cmp":
             return patom(self.boolean(n))
         if k == "ite":
+            if self.ite_poly:
+                c = self.boolean(n[1])
+                if c == ("k", True):
+                    return self.poly(n[2])
+                if c == ("k", False):
+                    return self.poly(n[3])
+                pc = self.boolpoly(c)
+                return padd(pmul(pc, self.poly(n[2])), pmul(padd(pconst(1), pneg(pc)), self.poly(n[3])))
             return patom(self.ite(n[1], n[2], n[3]))
         if k == "call":
             return self.call(n)
@@ -471,6 +484,23 @@ class Normalizer:
             return atoms_sorted[0]
         return ("B", tuple(atoms_sorted), table)
 
+    def boolpoly(self, c) -> dict:
+        """0/1-valued polynomial of a canonical Boolean term over idempotent atoms (multilinear form)."""
+        if not (isinstance(c, tuple) and c and c[0] == "B"):
+            return patom(c)
+        atoms, table = c[1], c[2]
+        res: dict = {}
+        n = len(atoms)
+        for j in range(1 << n):
+            if not (table >> j) & 1:
+                continue
+            term = pconst(1)
+            for i, a in enumerate(atoms):
+                pa = patom(a)
+                term = pmul(term, pa if (j >> i) & 1 else padd(pconst(1), pneg(pa)))
+            res = padd(res, term)
+        return res
+
     def ite(self, c, a, b):
         cc = self.boolean(c)
         nc = self.boolean(("un", "Invert", c))
@@ -586,6 +616,9 @@ class Normalizer:
             return self.poly(x)
         p = self.poly(x)
         if dt in INT_DTYPES:
+            fx = freeze(p)
+            if fx in self.bool_terms or (isinstance(fx, tuple) and fx and fx[0] in ("B", "cmp")):
+                return p  # Bool -> int is value-preserving
             if list(p.keys()) in ([()], []) and all(c.denominator == 1 for c in p.values()):
                 return p
             return patom(("cast", "int", freeze(p)))
